@@ -279,6 +279,11 @@ class Tracer:
         for i, p in enumerate(cal.params):
             if i < len(args):
                 env2[("var", p["n"], p["d"])] = self.npath(fn, fn.term(args[i]), env, vt)
+                # where the value handed over comes from (a local the caller initialised, or what the caller was handed)
+                at = fn.term(args[i])
+                sv = self._value_source(fn, at, env, vt)
+                if sv is not None:
+                    env2[("src", p["n"], p["d"])] = sv
         if obj is not None and cal.cls and not cal.d.get("static"):
             # calling a member serialiser on some object: its `this` is that object
             env2["__this__"] = self.npath(fn, obj, env, vt)
@@ -297,6 +302,30 @@ class Tracer:
     def _trace_with_this(self, fn, stream, env, depth):
         self._this_path = env.pop("__this__", None)
         return self.trace(fn, stream, env, depth)
+
+    def _value_source(self, fn, a, env, vt):
+        """For a plain local: the expression it was initialised with, as a path (None if it is not such a local)."""
+        if a[0] != "var":
+            return None
+        if ("src", a[1], a[2]) in env:
+            return env[("src", a[1], a[2])]
+        defs = {}
+        for dn in fn.nodes:
+            if dn["k"] == "DeclStmt":
+                for d in dn.get("decls", []):
+                    if "init" in d and "d" in d and ("var", d["n"], d["d"]) not in env:
+                        it = fn.term(d["init"])
+                        if it[0] not in ("?", "lambda"):
+                            defs[("var", d["n"], d["d"])] = it
+        if a not in defs:
+            return None
+        from .flow import substitute
+        aenv = dict(env)
+        aenv["__anon__"] = True
+        tt = defs[a]
+        for _ in range(4):
+            tt = substitute(tt, defs)
+        return self.npath(fn, tt, aenv, vt)
 
     def prim_token(self, fn, c, env, vt):
         F = self.F
@@ -344,7 +373,9 @@ class Tracer:
                 from .flow import substitute
                 aenv = dict(env)
                 aenv["__anon__"] = True
-                if a[0] == "var" and a in defs:
+                if a[0] == "var" and ("src", a[1], a[2]) in env:
+                    src = env[("src", a[1], a[2])]
+                elif a[0] == "var" and a in defs:
                     tt = defs[a]
                     for _ in range(4):
                         tt = substitute(tt, defs)
